@@ -877,6 +877,13 @@ C08_REF_RETURNS_PART = (G, "gosym_part", dict(name="c08_cpp_reference_returns", 
                                     "member path of such objects, a reference-returning accessor applied to such an object, an element of such a container), never a temporary (by-value accessor call, "
                                     "arithmetic, conversion, lambda call) or a part of one; the non-const overload delegates to a reference-returning const accessor"))
 
+C06_REMOVALS_PART = (G, "gosym_part", dict(name="c06_removals", entry="internal/zzverif.C06Removal",
+                               required_sites=("both-versions-valid", "verdict-without-panic", "removed-protocol-is-reported-not-silent", "every-diagnostic-is-located"),
+                               assumptions=["the latest version = the previous one minus a symbolic selection (protocol P, protocol Q, every type definition); an empty latest model is a valid model",
+                                            "whether a removed protocol is a warning or an error is not asserted (the documentation does not say); it must be mentioned, and every warning must carry a file"],
+                               desc="definitions disappear between versions (down to an EMPTY latest model): the real ValidateEvolution returns a verdict without panicking, mentions every removed "
+                                    "protocol and locates every warning in a model file"))
+
 PARTS = {
     "C08": [
         C08_RESERVED_PART,   # identifiers derived from model names are never C++ / Python reserved words
@@ -1026,6 +1033,13 @@ PARTS = {
                                desc="a computed field (`inner.dbl` of another record / `dbl` of the same record) referenced from a plain computed field and from inside a `!switch` case that declares a "
                                     "variable of symbolic type and name, in a symbolic declaration order, through the real dsl.Validate: every reference has the static type of the field's own body, "
                                     "that type is the promotion of its operand type whatever the variable's type, and the body uses no variable")),
+        (G, "gosym_part", dict(name="c19_variable_shadowing", entry="internal/zzverif.C19Shadow", args_quick=(0,), args_thorough=(1,),
+                               required_sites=("inner-case-expression-kept", "name-denotes-the-innermost-declaration"),
+                               assumptions=["every target language binds the innermost declaration of a name (lambda parameter / local variable of the emitted case); binary promotion = the real "
+                                            "dsl.GetCommonType, small integers promoted to int32", "variable types over 7 numeric primitives (thorough: 13); a validator that refuses an inner "
+                                            "declaration hiding an outer one would be consistent as well (then nothing else is asserted)"],
+                               desc="a `!switch` case nested in a `!switch` case, both declaring a variable (same name or different names, symbolic numeric types), through the real dsl.Validate: "
+                                    "the static type of `name + name` in the inner case is the promotion of the type of the INNERMOST declaration of that name")),
         (G, "gosym_part", dict(name="c19_alias_operands", entry="internal/zzverif.C19AliasOperands", args_quick=(0,), args_thorough=(1,),
                                extra_thorough=("-max-paths", "400000"),
                                required_sites=("accept-reject-independent-of-alias-levels", "resolved-tree-and-static-types-independent-of-alias-levels",
@@ -1042,7 +1056,7 @@ PARTS = {
                                     "tree with the same resolved primitive and inserted conversions on every node, dsl.IsIntegralType iff the resolved primitive is an integer, and the same emitted "
                                     "operator / conversion / literal forms in Python (`//` vs `/`), C++ and MATLAB")),
     ],
-    "C10": [C10_FORMS[f] for f in (0, 1, 3, 4, 5)] + [only_thorough(C10_FORMS[f]) for f in (2, 6)] + C10_SHAPES + [C10_GRAPH_PART, C10_PARSER_PART, C10_DEFUSE_PART, C10_CYCLE_SPELLINGS_PART, C10_BUDGET_PART] + C10_YAML,  # C10_GRAPH_PART: no hang / panic of the package loader for any import graph
+    "C10": [C06_REMOVALS_PART] + [C10_FORMS[f] for f in (0, 1, 3, 4, 5)] + [only_thorough(C10_FORMS[f]) for f in (2, 6)] + C10_SHAPES + [C10_GRAPH_PART, C10_PARSER_PART, C10_DEFUSE_PART, C10_CYCLE_SPELLINGS_PART, C10_BUDGET_PART] + C10_YAML,  # C10_GRAPH_PART: no hang / panic of the package loader for any import graph
     "C09": [
         (G, "gosym_part", dict(name="c09_base", entry="internal/zzverif.C09Base", required_sites=("base-accepted",), assumptions=C09_ASSUME,
                                desc="the unmodified two-namespace base model validates (guards against an over-rejecting harness)")),
@@ -1348,6 +1362,7 @@ PARTS = {
                                desc="real dsl.Validate on old and new = edit(old), then real ValidateEvolution: verdict class (silent / warning / error) equals the documented class for "
                                     "27 edit kinds, alone and combined with a compatible change of the record they refer to; number pair and vector lengths symbolic; a changed enum value is any pair of "
                                     "different boundary values (change of sign included) of a symbolic base type out of int8/16/32/64, uint8/64")),
+        C06_REMOVALS_PART,
         (G, "gosym_part", dict(name="c06_wrapper_depth", entry="internal/zzverif.C06Wrappers", args_quick=(3, 4), args_thorough=(3, 8),
                                extra_thorough=("-max-paths", "400000"),
                                required_sites=("models-validate-and-verdict-without-panic", "unchanged-wrapped-type-is-silent", "wrapped-change-has-the-class-of-the-bare-change"),
